@@ -461,4 +461,9 @@ def R7_cpi_wire_format(run):
     xfer.R_cpi_builders(run, "R7")
 
 
-RULES = [R1_layouts, R2_discriminators, R3_accessors, R4_routing, R4b_entry_forwarding, R5_ported_pairs, R6_cross_checks, R7_cpi_wire_format]
+def R8_events(run):
+    from rules import events
+    events.R_events(run, "R8")
+
+
+RULES = [R1_layouts, R2_discriminators, R3_accessors, R4_routing, R4b_entry_forwarding, R5_ported_pairs, R6_cross_checks, R7_cpi_wire_format, R8_events]
